@@ -547,7 +547,11 @@ class Ctx:
                 print("VIOLATION property=%s replay=%s" % (self.pid, rp))
                 print("  key=%s count=%d: %s" % (key, len(ds), (d["msg"] or "")[:600]))
         cov = dict(states=self.states, transitions=self.transitions,
-                   traces_validated_against_impl=self.traces,
+                   # both binding directions: recorded implementation histories accepted by the trace
+                   # spec (code -> spec) + TLC-generated behaviours executed on the implementation with
+                   # every step compared (spec -> code); the two parts are given separately below
+                   traces_validated_against_impl=self.traces + self.behaviours,
+                   impl_histories_validated_by_tlc=self.traces,
                    samples=self.samples[:6] or ["(no sample recorded)"],
                    behaviours_replayed=self.behaviours, steps_compared=self.steps,
                    tlc_runs=self.tlc_runs, go_runs=self.go_runs, counters=self.counters,
